@@ -229,8 +229,8 @@ def dotMember (a : SpMat) (labels : List Nat) (k : Nat) : List (List Rat) :=
 
 /-- `A.T` of an `nRow × nCol` matrix -/
 def transposeSp (a : SpMat) (nCol : Nat) : SpMat :=
-  tab nCol fun j => (a.zipIdx).flatMap fun (ri : List (Nat × Rat) × Nat) =>
-    (ri.1.filter fun e => e.1 == j).map fun e => (ri.2, e.2)
+  tab nCol fun j => (List.range a.length).flatMap fun i =>
+    ((a.getD i []).filter fun e => e.1 == j).map fun e => (i, e.2)
 
 def absR (x : Rat) : Rat := if x < 0 then -x else x
 
@@ -251,37 +251,55 @@ structure Secondary where
   probsRow : Option (List (List Rat))
   probsCol : Option (List (List Rat))
   aggregate : Option (List (List Rat))
-deriving Repr
+deriving Repr, DecidableEq
 
 def maxLabel? (l : List Nat) : Except PyErr Nat :=
   match l.max? with
   | none => .error .valueError
   | some m => .ok m
 
+/-- the branch `not self.bipartite` of `_secondary_outputs`: `probs = get_membership(labels_)`,
+    `probs_ = normalize(A.dot(probs))`, `aggregate_ = probs.T.dot(A.dot(probs))` -/
+def secondarySquare (a : SpMat) (nCol : Nat) (labels : List Nat) (returnProbs returnAggregate : Bool) :
+    Except PyErr Secondary :=
+  match maxLabel? labels with                                  -- get_membership(labels_): max(labels)+1
+  | .error e => .error e
+  | .ok m =>
+    let k := m + 1
+    if labels.length != nCol then .error .valueError           -- input_matrix.dot(probs)
+    else
+      let am := dotMember a labels k
+      if returnAggregate && labels.length != a.length then .error .valueError
+      else .ok ⟨if returnProbs then some (normalizeRows am) else none, none, none,
+                if returnAggregate then some (memberTDot labels k am k) else none⟩
+
+/-- the branch `self.bipartite` with `labels_col_` set: both memberships get
+    `n_labels = max(max(labels_row_), max(labels_col_)) + 1` columns -/
+def secondaryBip (a : SpMat) (nCol : Nat) (lr lc : List Nat) (returnProbs returnAggregate : Bool) :
+    Except PyErr Secondary :=
+  match maxLabel? lr, maxLabel? lc with
+  | .ok mr, .ok mc =>
+    let k := max mr mc + 1
+    if lr.length != a.length || lc.length != nCol then .error .valueError
+    else
+      let pr := if returnProbs then some (normalizeRows (dotMember a lc k)) else none
+      let pc := if returnProbs then some (normalizeRows (dotMember (transposeSp a nCol) lr k)) else none
+      let agg := if returnAggregate then some (memberTDot lr k (dotMember a lc k) k) else none
+      .ok ⟨pr, pr, pc, agg⟩
+  | .error e, _ => .error e
+  | _, .error e => .error e
+
 /-- `_secondary_outputs(input_matrix)`. `nCol` is `input_matrix.shape[1]`.
     The branch `bipartite and labels_col_ is None` is not reached by any clustering estimator
     (all of them call `_split_vars`); it is reported as a TypeError by the model (not modelled). -/
 def secondary (a : SpMat) (nCol : Nat) (f : Fitted) (bipartite returnProbs returnAggregate : Bool) :
-    Except PyErr Secondary := do
-  if !(returnProbs || returnAggregate) then return ⟨none, none, none, none⟩
-  if !bipartite then
-    let k := (← maxLabel? f.labels) + 1                       -- get_membership(labels_): max(labels)+1
-    if f.labels.length != nCol then throw .valueError         -- input_matrix.dot(probs)
-    let am := dotMember a f.labels k
-    let probs := if returnProbs then some (normalizeRows am) else none
-    if returnAggregate && f.labels.length != a.length then throw .valueError
-    let agg := if returnAggregate then some (memberTDot f.labels k am k) else none
-    return ⟨probs, none, none, agg⟩
+    Except PyErr Secondary :=
+  if !(returnProbs || returnAggregate) then .ok ⟨none, none, none, none⟩
+  else if !bipartite then secondarySquare a nCol f.labels returnProbs returnAggregate
   else
     match f.labelsRow, f.labelsCol with
-    | some lr, some lc =>
-      let k := max (← maxLabel? lr) (← maxLabel? lc) + 1
-      if lr.length != a.length || lc.length != nCol then throw .valueError
-      let pr := if returnProbs then some (normalizeRows (dotMember a lc k)) else none
-      let pc := if returnProbs then some (normalizeRows (dotMember (transposeSp a nCol) lr k)) else none
-      let agg := if returnAggregate then some (memberTDot lr k (dotMember a lc k) k) else none
-      return ⟨pr, pr, pc, agg⟩
-    | _, _ => throw .typeError
+    | some lr, some lc => secondaryBip a nCol lr lc returnProbs returnAggregate
+    | _, _ => .error .typeError
 
 /-! ### `KCenters`: everything around PageRank -/
 
